@@ -216,6 +216,7 @@ fn c06_golden(t: &dyn TypeOps, cx: &mut Cx, n: usize, rth: u64, rah: u64) {
         }
     }
     let Some(files) = g.corpus.get(&cx.type_id) else { cx.count("types_without_corpus", 1); return; };
+    if ty.has_f14_range() { cx.count("corpus_types_skipped_pinned_writer_defect_F14", 1); return; }
     let mut arena = Arena::new(1 << 16);
     let vals: Vec<String> = (0..n).map(|i| format!("{:?}", t.val(i))).collect();
     for (vs, bytes) in files {
